@@ -173,9 +173,30 @@ let cmd_build () =
     let text = unhex_string (String.trim line) in
     print_endline (observe_build (build_str build_fuel (str_of_string text)))) (read_lines ())
 
+(* ---- buildfs: builder::build_file on a directory tree; the case format of harness/src/buildfs.rs *)
+let split_on c s = if s = "-" then [] else String.split_on_char c s
+let names_of p = List.filter (fun x -> x <> "") (String.split_on_char '/' p)
+let rec prefixes = function [] -> [[]] | l -> l :: prefixes (List.rev (List.tl (List.rev l)))
+let cmd_buildfs () =
+  List.iter (fun line ->
+    match String.split_on_char ' ' (String.trim line) with
+    | cwd :: main :: paths :: dirs :: files :: _ ->
+      let cwd = names_of (unhex_string cwd) in
+      let dirs = List.map (fun d -> names_of (unhex_string d)) (split_on ',' dirs) in
+      let files = List.map (fun kv -> match String.index_opt kv '=' with
+          | Some i -> (names_of (unhex_string (String.sub kv 0 i)), unhex_string (String.sub kv (i + 1) (String.length kv - i - 1)))
+          | None -> (names_of (unhex_string kv), "")) (split_on ',' files) in
+      let all_dirs = List.sort_uniq compare (List.concat_map prefixes (cwd :: dirs @ List.map (fun (n, _) -> List.rev (List.tl (List.rev n))) (List.filter (fun (n, _) -> n <> []) files))) in
+      let conv n = List.map str_of_string n in
+      let fs = { fs_cwd = conv cwd; fs_dirs = List.map conv all_dirs; fs_files = List.map (fun (n, c) -> (conv n, str_of_string c)) files } in
+      let paths = List.map (fun p -> str_of_string (unhex_string p)) (split_on ',' paths) in
+      print_endline (observe_build (build_file fs build_fuel (str_of_string (unhex_string main)) paths))
+    | _ -> print_endline "BADCASE") (read_lines ())
+
 let () =
   match Sys.argv.(1) with
   | "build" -> cmd_build ()
+  | "buildfs" -> cmd_buildfs ()
   | "expr" -> cmd_expr ()
   | "hex" -> cmd_hex ()
   | "enc" -> cmd_enc ()
